@@ -22,6 +22,9 @@ enum Model {
     ArrRec(Vec<(String, Vec<i64>)>),
     /// struct containing a struct containing an array
     Outer { tag: String, name: String, vals: Vec<i64> },
+    /// struct holding a channel next to ordinary data: the struct is copied, the channel inside
+    /// it must keep referring to the same queue
+    Port { tag: String },
     /// a random shape from the type algebra (arrays, options, tuples, structs, enums nested up
     /// to three levels)
     Tree { ty: Ty, val: Val, init: String, show_fn: String },
@@ -41,6 +44,11 @@ type Shape =
 type Outer = {
     tag: string
     inner: Rec
+}
+
+type Port = {
+    tag: string
+    c: channel<int>
 }
 
 fn ji(a: array<int>) -> string {
@@ -133,7 +141,8 @@ fn js(a: &[String]) -> String {
 
 impl Model {
     fn fresh(rng: &mut Rng, g: &mut Gen) -> Model {
-        match rng.below(20) {
+        match rng.below(22) {
+            20 | 21 => Model::Port { tag: "p1".into() },
             12..=19 => {
                 let depth = rng.range(1, 3) as u32;
                 let ty = g.mutable_ty(rng, depth);
@@ -178,6 +187,7 @@ impl Model {
             Model::ArrRec(_) => "array<struct{string,array<int>}>",
             Model::Outer { .. } => "struct{string,struct{string,array<int>}}",
             Model::Tree { .. } => "tree",
+            Model::Port { .. } => "struct{string,channel<int>}",
         }
     }
 
@@ -240,6 +250,11 @@ impl Model {
                     .join(", ")
             ),
             Model::Tree { ty, init, .. } => format!("var {v}: {} = {init}\n", ty.name()),
+            Model::Port { tag } => format!(
+                "let {v}_c: channel<int> = channel()\nvar {v} = Port(\"{}\" .. {}, {v}_c)\n",
+                &tag[..1],
+                &tag[1..]
+            ),
             Model::Outer { tag, name, vals } => format!(
                 "var {v} = Outer(\"{}\" .. {}, Rec(\"{}\" .. {}, [{}]))\n",
                 &tag[..1],
@@ -266,6 +281,7 @@ impl Model {
             Model::ArrRec(_) => format!("show_recs({v})"),
             Model::Outer { .. } => format!("show_outer({v})"),
             Model::Tree { show_fn, .. } => format!("{show_fn}({v})"),
+            Model::Port { .. } => format!("{v}.tag"),
         }
     }
 
@@ -284,6 +300,7 @@ impl Model {
             Model::ArrRec(rs) => rs.iter().map(|(name, vals)| format!("[{name}:{}]", ji(vals))).collect(),
             Model::Outer { tag, name, vals } => format!("{tag}/{name}:{}", ji(vals)),
             Model::Tree { val, .. } => val.show(),
+            Model::Port { tag } => tag.clone(),
         }
     }
 
@@ -292,6 +309,10 @@ impl Model {
     fn mutate(&mut self, rng: &mut Rng, g: &mut Gen, v: &str, tag: &str, in_task: bool) -> String {
         let n = rng.range(10, 99) as i64;
         match self {
+            Model::Port { tag: t } => {
+                *t = format!("{tag}{n}");
+                format!("{v}.tag = \"{tag}\" .. {n}\n")
+            }
             Model::Tree { ty, val, .. } => match g.mutate_fn(rng, ty, val, tag) {
                 Some(f) => format!("{f}({v})\n"),
                 None => String::new(),
@@ -447,6 +468,11 @@ pub fn generate(rng: &mut Rng) -> Workload {
             src.push_str(&format!("    {line}\n"));
         }
     }
+    for (m, v) in task_models.iter().zip(&names) {
+        if let Model::Port { .. } = m {
+            src.push_str(&format!("    {v}.c.write(4242)\n"));
+        }
+    }
     if task_collects {
         src.push_str("    work(40)\n");
     }
@@ -510,6 +536,8 @@ pub fn generate(rng: &mut Rng) -> Workload {
                     let (_, fresh_expr) = g.value(rng, ty);
                     format!("{v} = {fresh_expr}\n")
                 }
+                // keeps its channel: main still reads from it below
+                Model::Port { .. } => format!("{v}.tag = \"z\" .. 0\n"),
             };
             src.push_str(&fresh);
         }
@@ -520,6 +548,14 @@ pub fn generate(rng: &mut Rng) -> Workload {
     src.push_str("let from_task = done.read()\n");
     src.push_str("obs(0, from_task)\n");
     src.push_str("obs(1, main_view)\n");
+    let mut port_reads = vec![];
+    for (i, (m, v)) in models.iter().zip(&names).enumerate() {
+        if let Model::Port { .. } = m {
+            // the task wrote into the channel inside ITS copy of the struct; it must arrive here
+            src.push_str(&format!("obs({}, \"\" .. {v}.c.read())\n", 50 + i));
+            port_reads.push((50 + i as i64, "4242".to_string()));
+        }
+    }
     if second {
         src.push_str("go2.write(1)\nobs(2, done2.read())\n");
     }
@@ -541,6 +577,7 @@ pub fn generate(rng: &mut Rng) -> Workload {
     w.has_tasks = true;
     w.projection = Projection::AllThreads;
     let mut expected = vec![(0, format!("{snapshot}|{task_after}")), (1, main_view)];
+    expected.extend(port_reads);
     if second {
         expected.push((2, format!("{snapshot}|{}", want_all(&second_models))));
     }
